@@ -370,7 +370,9 @@ def judge(ctx, rows, selftest=True):
                 new = new_problems[id(row)]
                 if not new:
                     continue
-                sig = "law:check:%s:%s%s" % ("+".join(sorted({p.split(":")[0] for p in new})), last[0], "-merge" if last[2] else "")
+                # the commit builder differs by access path: PackCommitBuilder locally, the generic builder over bzr://
+                sig = "law:check:%s:%s%s:%s" % ("+".join(sorted({p.split(":")[0] for p in new})), last[0],
+                                                "-merge" if last[2] else "", "bzr" if m["remote"] else "local")
                 files = {f for f in ("a", "b", "l", "root") for p in new if ("id-%s'" % f) in p or (f == "root" and "root-id" in p)}
                 if files and all(added_twice(row["c"]["P"], m["trees"], f) for f in files):
                     sig += ":file-id-added-twice"      # per-file graph and revision graph differ only for such files
